@@ -1,9 +1,10 @@
 (* Property C18: printed form is canonical and re-readable; exit status is the program's result
    ONLY statements: each theorem is closed by `exact` of a lemma proved elsewhere and followed by Print Assumptions. *)
-From Coq Require Import ZArith NArith List Bool Lia Permutation.
+From Coq Require Import ZArith NArith List Bool Lia Permutation Sorting.
 Import ListNotations.
-Require Import Base Strings Builtins PrintInt.
+Require Import Base Strings Builtins PrintInt Float Num Interp PrintDict.
 Open Scope Z_scope.
+(* reading the printed form of any integer in base 10 gives it back *)
 Theorem int_print_parse n :
   parse_int (str_of_int n) 10 = Some n.
 Proof. exact (PrintInt.int_print_parse n). Qed.
@@ -13,4 +14,30 @@ Theorem int_print_injective a b :
   str_of_int a = str_of_int b -> a = b.
 Proof. exact (PrintInt.int_print_injective a b). Qed.
 Print Assumptions int_print_injective.
+
+(* the formatter's sorted entry list is the same for EVERY insertion order (any permutation of the printed entries): pair_le is a total order and insertion sort is canonical *)
+Theorem dict_print_order_free l l' :
+  Permutation l l' -> sort_pairs l = sort_pairs l'.
+Proof. exact (PrintDict.dict_print_order_free l l'). Qed.
+Print Assumptions dict_print_order_free.
+
+Theorem dict_print_sorted l :
+  StronglySorted ple (sort_pairs l) /\ Permutation (sort_pairs l) l.
+Proof. exact (PrintDict.dict_print_sorted l). Qed.
+Print Assumptions dict_print_sorted.
+
+Theorem ple_total p q :
+  ple p q \/ ple q p.
+Proof. exact (PrintDict.ple_total p q). Qed.
+Print Assumptions ple_total.
+
+Theorem ple_antisym p q :
+  ple p q -> ple q p -> p = q.
+Proof. exact (PrintDict.ple_antisym p q). Qed.
+Print Assumptions ple_antisym.
+
+Theorem ple_trans p q r :
+  ple p q -> ple q r -> ple p r.
+Proof. exact (PrintDict.ple_trans p q r). Qed.
+Print Assumptions ple_trans.
 
